@@ -5,7 +5,10 @@ package main
 
 import (
 	"container/list"
+	"encoding/json"
 	"fmt"
+	"os"
+	"os/exec"
 	"sort"
 	"strings"
 
@@ -74,11 +77,11 @@ func r5Filter(m map[string]hrec, pred func(hrec) bool) []string {
 func init() {
 	register(&Check{
 		ID:     "C14",
-		Rule:   "E1 on the pristine table: all records; every day 2001-01-01..(last year+1)-12-31 x {GetHoliday, GetHolidayByYmd, GetHolidays (dashed and undashed keys)}; every month and year x by-month/by-year views; every distinct target and every non-target day x by-target views; Solar.Next(n,true) for every day x n in +-{1..10,15,30} and 0; GetSalaryRate on every day; all compared with reference R5 (parsed record map, sorted filters, day-by-day working-day walk). E2: breadth-first search over Fix histories (alphabet of 18 fix-up calls, depth 2 quick / 3 thorough) from the pristine state, states de-duplicated on the exact (names, table) pair, every view re-compared with R5 after every transition. non-trivial = days carrying a record or lying within 10 days of one, and every Fix transition",
+		Rule:   "E1 on the pristine table: all records; every day 2001-01-01..(last year+1)-12-31 x {GetHoliday, GetHolidayByYmd, GetHolidays (dashed and undashed keys)}; every month and year x by-month/by-year views; every distinct target and every non-target day x by-target views; Solar.Next(n,true) for every day x n in +-{1..10,15,30} and 0; GetSalaryRate on every day; all compared with reference R5 (parsed record map, sorted filters, day-by-day working-day walk). E2: every Fix history over an alphabet of 21 fix-up calls to depth 2 (quick) / 3 (thorough), each history executed in its own fresh process (no harness reset), with all views, the workday walk and the pay rate around the affected days observed on the pristine table first and re-compared with R5 after every fix-up. non-trivial = days carrying a record or lying within 10 days of one, and every Fix transition",
 		Assume: []string{"R5: Fix(names, data) = for each 18-character segment insert/overwrite the record of its day, or delete it when the flag is '~'; views are date-ordered filters", "statutory pay-rate days as documented in Solar.GetSalaryRate (Jan 1, May 1, Oct 1-3, lunar 1/1-3, 5/5, 8/15, Qingming day) with lunar dates and Qingming from the library"},
 		Shards: func(tier string, seed int64) []Shard {
 			sh := []Shard{{Kind: "views", Tier: tier, Seed: seed}, {Kind: "walk", Arg: "0", Tier: tier, Seed: seed}, {Kind: "walk", Arg: "1", Tier: tier, Seed: seed}, {Kind: "walk", Arg: "2", Tier: tier, Seed: seed}, {Kind: "walk", Arg: "3", Tier: tier, Seed: seed}}
-			for i := 0; i < 18; i++ {
+			for i := range c14FixOps() {
 				sh = append(sh, Shard{Kind: "fix", Arg: fmt.Sprint(i), Tier: tier, Seed: seed})
 			}
 			return sh
@@ -186,6 +189,8 @@ func runC14(w *W) {
 		c14Walk(w)
 	case "fix":
 		c14Fix(w)
+	case "fixpath":
+		c14FixPath(w)
 	}
 }
 
@@ -284,14 +289,9 @@ type fixOp struct {
 	data  string
 }
 
-func c14Fix(w *W) {
-	depth := 2
-	if w.Thorough() {
-		depth = 3
-	}
-	pristineData()
+func c14FixOps() []fixOp {
 	ext := append(append([]string{}, HolidayUtil.NAMES...), "测试节")
-	ops := []fixOp{
+	return []fixOp{
 		{"add-inside-existing-year", nil, "201003080120100308"},
 		{"add-after-last-year", nil, "209901010120990101"},
 		{"add-before-first-year", nil, "200001010120000101"},
@@ -311,183 +311,205 @@ func c14Fix(w *W) {
 		{"remove-day-referenced-by-earlier-targets", nil, "20020101~000000000"},
 		{"remove-day-referenced-by-two-earlier-targets", nil, "20060501~000000000"},
 		{"replace-day-inside-interleaved-run", nil, "201410040120141001"},
+		// make-up (working) records on statutory festival days: the pay rate stays 3
+		{"make-up-record-on-mid-autumn-day", nil, "200709250020070925"},
+		{"make-up-record-on-national-day-2", nil, "202010020020201001"},
+		{"early-record-removed", nil, "20050101~000000000"},
 	}
-	// day- and month-level views are re-compared on the years the alphabet touches (+-1); by-year views on all years
-	fixYears := map[int]bool{}
-	for _, op := range ops {
-		for dt := op.data; len(dt) >= 18; dt = dt[18:] {
+}
+
+// c14Fix: one shard per first operation. Every path [first, j(, k)] is executed in its own fresh process
+// (no harness reset between histories: a library that caches lookups and invalidates them inside Fix stays correct,
+// one that forgets an invalidation is caught), results are merged here.
+func c14Fix(w *W) {
+	depth := 2
+	if w.Thorough() {
+		depth = 3
+	}
+	ops := c14FixOps()
+	first := atoi(w.Shard.Arg)
+	exe, _ := os.Executable()
+	var paths [][]int
+	for j := range ops {
+		if depth == 2 {
+			paths = append(paths, []int{first, j})
+			continue
+		}
+		for k := range ops {
+			paths = append(paths, []int{first, j, k})
+		}
+	}
+	for _, pth := range paths {
+		var parts []string
+		for _, x := range pth {
+			parts = append(parts, fmt.Sprint(x))
+		}
+		js, _ := json.Marshal(Shard{Kind: "fixpath", Arg: strings.Join(parts, ","), Tier: w.Shard.Tier, Seed: w.Shard.Seed})
+		cmd := exec.Command(exe, "worker", "C14", string(js))
+		cmd.Stderr = os.Stderr
+		out, err := cmd.Output()
+		var res Result
+		ok := false
+		for _, ln := range strings.Split(string(out), "\n") {
+			if strings.HasPrefix(ln, "RESULT ") && json.Unmarshal([]byte(ln[7:]), &res) == nil {
+				ok = true
+			}
+		}
+		if err != nil || !ok {
+			hn := histNames(ops, pth)
+			w.Viol("C14:Fix:process-failed:"+strings.Join(hn, ">"), fmt.Sprintf("the process executing Fix history %v failed: %v %s", hn, err, tail(string(out), 200)), hn)
+			continue
+		}
+		merge(&w.R, &res)
+	}
+	w.Count("fix_paths", int64(len(paths)))
+	w.R.States += int64(len(w.R.Distinct["fix_states"]))
+}
+
+// c14FixPath runs in a fresh process: observe the pristine table (views, workday walk, pay rate around the affected
+// days), then apply the path's fix-ups one by one, re-observing everything after each against the reference model.
+func c14FixPath(w *W) {
+	ops := c14FixOps()
+	var path []int
+	for _, x := range strings.Split(w.Shard.Arg, ",") {
+		path = append(path, atoi(x))
+	}
+	names0, data0 := HolidayUtil.VerifState()
+	// years touched by this path (+-1): day- and month-level views are compared there; by-year views on all years
+	years := map[int]bool{}
+	var days []string
+	for _, i := range path {
+		for dt := ops[i].data; len(dt) >= 18; dt = dt[18:] {
+			days = append(days, dt[:8])
 			for _, f := range []string{dt[:4], dt[10:14]} {
 				if y := atoi(f); y > 1900 {
-					fixYears[y-1], fixYears[y], fixYears[y+1] = true, true, true
+					years[y-1], years[y], years[y+1] = true, true, true
 				}
 			}
 		}
 	}
-	type node struct{ hist []int }
-	apply := func(h []int) (ok bool) {
-		HolidayUtil.VerifReset()
-		for _, i := range h {
-			if msg, p := try(func() { HolidayUtil.Fix(ops[i].names, ops[i].data) }); p {
-				hn := histNames(ops, h)
-				w.Viol("C14:Fix:panic:"+ops[i].name, fmt.Sprintf("Fix history %v panicked: %s", hn, msg), hn)
-				return false
-			}
+	observe := func(tag string, hn []string) {
+		class := ""
+		names, data := HolidayUtil.VerifState()
+		m, _, sorted := r5Parse(names, data)
+		if !sorted {
+			class = "C14:Fix:new-record-appended-out-of-date-order"
 		}
-		return true
-	}
-	// reference model
-	refApply := func(h []int) (map[string]hrec, []string) {
-		names := HolidayUtil.NAMES
-		m, _, _ := r5Parse(names, pristineData())
-		for _, i := range h {
-			if ops[i].names != nil {
-				names = ops[i].names
+		c14Views(w, fmt.Sprintf("%s Fix history %v", tag, hn), "C14:Fix:view:"+strings.Join(hn, ">"), class, years)
+		works := func(j int) bool {
+			y, mo, d := r1FromJDN(j)
+			if r, ok := m[fmt.Sprintf("%04d%02d%02d", y, mo, d)]; ok {
+				return r.work
 			}
-			dt := ops[i].data
-			for len(dt) >= 18 {
-				seg := dt[:18]
-				if seg[8] == '~' {
-					delete(m, seg[:8])
-				} else {
-					idx := int(seg[8] - '0')
-					nm := "?"
-					if idx >= 0 && idx < len(names) {
-						nm = names[idx]
+			wd := r1Weekday(j)
+			return wd != 0 && wd != 6
+		}
+		for _, ds := range days {
+			y, mo, d := atoi(ds[:4]), atoi(ds[4:6]), atoi(ds[6:8])
+			if !r1Valid(y, mo, d) {
+				continue
+			}
+			j0 := r1JDN(y, mo, d)
+			for off := -4; off <= 4; off++ {
+				j := j0 + off
+				sy, sm, sd := r1FromJDN(j)
+				sol := calendar.NewSolarFromYmd(sy, sm, sd)
+				for _, n := range []int{1, -1, 3, -3} {
+					tj, rest := j, n
+					if rest < 0 {
+						rest = -rest
 					}
-					m[seg[:8]] = hrec{seg[:8], nm, seg[9] == '0', seg[10:18]}
-				}
-				dt = dt[18:]
-			}
-			// names may have changed: re-resolve names by index is not possible from records; the library stores indices.
-		}
-		return m, names
-	}
-	key := func() string { n, d := HolidayUtil.VerifState(); return strings.Join(n, "|") + "#" + d }
-	seen := map[string]bool{}
-	HolidayUtil.VerifReset()
-	seen[key()] = true
-	firstOp := atoi(w.Shard.Arg)
-	// step -> Fix -> step inside this fresh process (no reset in between): workday stepping must follow the record set
-	// as it is *now*, also when the same days were stepped over before the fix-up
-	{
-		op := ops[firstOp]
-		var days []string
-		for dt := op.data; len(dt) >= 18; dt = dt[18:] {
-			days = append(days, dt[:8])
-		}
-		walk := func(tag string) {
-			names, data := HolidayUtil.VerifState()
-			m, _, _ := r5Parse(names, data)
-			works := func(j int) bool {
-				y, mo, d := r1FromJDN(j)
-				if r, ok := m[fmt.Sprintf("%04d%02d%02d", y, mo, d)]; ok {
-					return r.work
-				}
-				wd := r1Weekday(j)
-				return wd != 0 && wd != 6
-			}
-			for _, ds := range days {
-				y, mo, d := atoi(ds[:4]), atoi(ds[4:6]), atoi(ds[6:8])
-				if !r1Valid(y, mo, d) {
-					continue
-				}
-				j0 := r1JDN(y, mo, d)
-				for off := -4; off <= 4; off++ {
-					for _, n := range []int{1, -1, 3, -3} {
-						j := j0 + off
-						tj, rest := j, n
-						if rest < 0 {
-							rest = -rest
+					for rest > 0 {
+						if n > 0 {
+							tj++
+						} else {
+							tj--
 						}
-						for rest > 0 {
-							if n > 0 {
-								tj++
-							} else {
-								tj--
-							}
-							if works(tj) {
-								rest--
-							}
-						}
-						sy, sm, sd := r1FromJDN(j)
-						var got *calendar.Solar
-						if msg, p := try(func() { got = calendar.NewSolarFromYmd(sy, sm, sd).Next(n, true) }); p {
-							w.Viol("C14:Fix:walk:panic:"+op.name, msg, op.name)
-							continue
-						}
-						w.R.Transitions++
-						w.R.Traces++
-						if got.ToYmd() != r1Ymd(tj) {
-							w.Viol("C14:Fix:workday-walk:"+tag+":"+op.name, fmt.Sprintf("%s fix-up %q: %s.Next(%d,true) = %s, the record set as it is now gives %s", tag, op.name, r1Ymd(j), n, got.ToYmd(), r1Ymd(tj)), []string{op.name, r1Ymd(j)})
+						if works(tj) {
+							rest--
 						}
 					}
+					var got *calendar.Solar
+					if msg, p := try(func() { got = sol.Next(n, true) }); p {
+						w.Viol("C14:Fix:walk:panic:"+strings.Join(hn, ">"), msg, hn)
+						continue
+					}
+					w.R.Transitions++
+					w.R.Traces++
+					if got.ToYmd() != r1Ymd(tj) {
+						w.Viol("C14:Fix:workday-walk:"+strings.Join(hn, ">"), fmt.Sprintf("%s Fix history %v: %s.Next(%d,true) = %s, the record set as it is now gives %s", tag, hn, r1Ymd(j), n, got.ToYmd(), r1Ymd(tj)), hn)
+					}
+				}
+				// pay rate
+				l := sol.GetLunar()
+				lm, ld := l.GetMonth(), l.GetDay()
+				want := 1
+				switch {
+				case (sm == 1 && sd == 1) || (sm == 5 && sd == 1) || (sm == 10 && sd >= 1 && sd <= 3) || (lm == 1 && ld >= 1 && ld <= 3) || (lm == 5 && ld == 5) || (lm == 8 && ld == 15) || l.GetJieQi() == "清明":
+					want = 3
+				case !works(j):
+					want = 2
+				}
+				w.R.Evals++
+				if got := sol.GetSalaryRate(); got != want {
+					w.Viol("C14:Fix:GetSalaryRate:"+strings.Join(hn, ">"), fmt.Sprintf("%s Fix history %v: pay rate of %s = %d, reference %d", tag, hn, r1Ymd(j), got, want), hn)
 				}
 			}
 		}
-		HolidayUtil.VerifReset()
-		walk("before")
-		if _, p := try(func() { HolidayUtil.Fix(op.names, op.data) }); !p {
-			walk("after")
-		}
-		HolidayUtil.VerifReset()
 	}
-	frontier := []node{{nil}}
-	maxDepth := 0
-	for dep := 1; dep <= depth; dep++ {
-		var next []node
-		for _, nd := range frontier {
-			for i := range ops {
-				if dep == 1 && i != firstOp {
-					continue // this worker explores the subtree of histories that start with its own first operation
-				}
-				h := append(append([]int{}, nd.hist...), i)
-				if !apply(h) {
-					continue
-				}
-				w.R.Transitions++
-				w.R.Nontrivial++
-				hn := histNames(ops, h)
-				// compare the live record set with the reference model
-				names, data := HolidayUtil.VerifState()
-				live, _, sorted := r5Parse(names, data)
-				ref, _ := refApply(h)
-				var diffs []string
-				for d, r := range ref {
-					if lr, ok := live[d]; !ok {
-						diffs = append(diffs, "missing "+r.String())
-					} else if lr.work != r.work || lr.target != r.target || lr.name != r.name {
-						diffs = append(diffs, "differs "+lr.String()+" vs "+r.String())
-					}
-				}
-				for d, r := range live {
-					if _, ok := ref[d]; !ok {
-						diffs = append(diffs, "extra "+r.String())
-					}
-				}
-				sort.Strings(diffs)
-				if len(diffs) > 0 || len(data)%18 != 0 {
-					w.Viol("C14:Fix:records:"+strings.Join(hn, ">"), fmt.Sprintf("after Fix history %v the table differs from insert/overwrite/delete semantics: %v", hn, clipList(diffs)), hn)
-				}
-				class := ""
-				if !sorted {
-					class = "C14:Fix:new-record-appended-out-of-date-order"
-				}
-				c14Views(w, fmt.Sprintf("after Fix history %v", hn), "C14:Fix:view:"+strings.Join(hn, ">"), class, fixYears)
-				k := key()
-				if !seen[k] {
-					seen[k] = true
-					next = append(next, node{h})
-					maxDepth = dep
-				}
+	observe("before", nil)
+	ref, _, _ := r5Parse(names0, data0)
+	names := names0
+	for step, i := range path {
+		hn := histNames(ops, path[:step+1])
+		if msg, p := try(func() { HolidayUtil.Fix(ops[i].names, ops[i].data) }); p {
+			w.Viol("C14:Fix:panic:"+ops[i].name, fmt.Sprintf("Fix history %v panicked: %s", hn, msg), hn)
+			return
+		}
+		w.R.Transitions++
+		w.R.Nontrivial++
+		// reference model: insert / overwrite / delete
+		if ops[i].names != nil {
+			names = ops[i].names
+		}
+		for dt := ops[i].data; len(dt) >= 18; dt = dt[18:] {
+			seg := dt[:18]
+			if seg[8] == '~' {
+				delete(ref, seg[:8])
+				continue
+			}
+			idx := int(seg[8] - '0')
+			nm := "?"
+			if idx >= 0 && idx < len(names) {
+				nm = names[idx]
+			}
+			ref[seg[:8]] = hrec{seg[:8], nm, seg[9] == '0', seg[10:18]}
+		}
+		ln, ld := HolidayUtil.VerifState()
+		live, _, _ := r5Parse(ln, ld)
+		var diffs []string
+		for d, r := range ref {
+			if lr, ok := live[d]; !ok {
+				diffs = append(diffs, "missing "+r.String())
+			} else if lr.work != r.work || lr.target != r.target || lr.name != r.name {
+				diffs = append(diffs, "differs "+lr.String()+" vs "+r.String())
 			}
 		}
-		frontier = next
+		for d, r := range live {
+			if _, ok := ref[d]; !ok {
+				diffs = append(diffs, "extra "+r.String())
+			}
+		}
+		sort.Strings(diffs)
+		if len(diffs) > 0 || len(ld)%18 != 0 {
+			w.Viol("C14:Fix:records:"+strings.Join(hn, ">"), fmt.Sprintf("after Fix history %v the table differs from insert/overwrite/delete semantics: %v", hn, clipList(diffs)), hn)
+		}
+		observe("after", hn)
+		w.DistinctAdd("fix_states", hashStr(strings.Join(ln, "|")+"#"+ld))
 	}
-	HolidayUtil.VerifReset()
-	w.R.States += int64(len(seen))
-	w.Count("fix_states", int64(len(seen)))
-	w.Count("fix_max_depth", int64(maxDepth))
-	w.Sample(map[string]interface{}{"fix_alphabet": len(ops), "distinct_states": len(seen), "depth": depth, "example_history": histNames(ops, []int{0, 6})})
+	if len(path) > 0 && path[0] == 0 && path[len(path)-1] == 6 {
+		w.Sample(map[string]interface{}{"fix_history": histNames(ops, path), "executed_in": "its own process", "observed": "views, workday walk and pay rate before and after every fix-up"})
+	}
 }
 
 func histNames(ops []fixOp, h []int) []string {
